@@ -661,6 +661,9 @@ def corpus():
         {"kind": "add", "a": {"n": None, "ops": [{"g": g1, "qs": [0]}]}, "b": {"n": None, "ops": [{"g": g2, "qs": [2, 0]}]},
          "sym": "none"},
         {"kind": "add", "a": {"n": None, "ops": []}, "b": {"n": None, "ops": []}, "sym": "none"},
+        # seeded change C01_m2: the right operand declares idle trailing qubits beyond both circuits' gates
+        {"kind": "add", "a": {"n": None, "ops": [{"g": g1, "qs": [0]}]}, "b": {"n": 3, "ops": [{"g": g1, "qs": [0]}]}, "sym": "none"},
+        {"kind": "add", "a": {"n": None, "ops": [{"g": g1, "qs": [0]}]}, "b": {"n": 2, "ops": []}, "sym": "none"},
         {"kind": "add_op", "a": {"n": 1, "ops": [{"g": g1, "qs": [0]}]}, "op": {"g": g2, "qs": [3, 1]}, "sym": "none"},
         {"kind": "add_op", "a": {"n": 1, "ops": [{"g": g1, "qs": [0]}]}, "op": {"mphase": [[1, 0], [0, 1]]}, "sym": "none"},
     ]
@@ -721,6 +724,10 @@ def generate(rng, tier):
         if not a["ops"]:
             a["n"] = rng.choice([None, na])
         cases.append({"kind": "add", "a": a, "b": b, "sym": "none"})
+        # declared widths beyond what the gates use (idle trailing qubits) on either operand, also on an empty one
+        b2 = dict(b, n=nb + rng.randrange(1, 3))
+        a2 = dict(a, n=rng.choice([None, na, na + rng.randrange(1, 3)])) if a["ops"] else dict(a)
+        cases.append({"kind": "add", "a": a2, "b": b2, "sym": "none"})
         g = _any_gate(rng, nb, 3, [1])
         cases.append({"kind": "add_op", "a": a, "op": _op(rng, nb, g), "sym": "none"})
     # --- malformed stream
